@@ -109,7 +109,8 @@ def retry_evaluator(p, res, meta):
     if lost:
         start = min(lost)
         r, got, want = lost[start]
-        return ({"kind": "unpatched-after-failed-commit"},
+        front = next((l.split()[1] for l in p if l.startswith("new ")), "?")
+        return ({"kind": "unpatched-after-failed-commit", "front": front},
                 f"`{res[fail][0]}` failed with `{res[fail][1][:40]}`, the label was then defined and the later commit succeeded, but reference "
                 f"`{' '.join(o.lines[r['i']])}` (field at {start}) still holds its placeholder: decodes to {got}, designated target gives {want}")
     return None
